@@ -1,5 +1,6 @@
 import FuModel.Props.C04
 import FuModel.Proofs.XargsExec
+import FuModel.Proofs.XargsReplaceMain
 
 /-!
 # C06 — xargs never builds a command line the operating system rejects
@@ -131,6 +132,29 @@ theorem C06_replace_accepted (lim : Limits) (sub : List (List UInt8)) (init : LS
   have h := C06_accepted ⟨lim, false, false, none⟩ sub init envp argMax file [] []
     hsys hptr hmax hroom hfile henv hne hinit (by simp) [] (by simp [processInput, nextOutcome, classify])
   simpa using h
+
+/-- **Replace mode, whole run.**  With the system limiter as `new_system` configures it, every
+    command `xargs -I R CMD …` starts - for every input, every number of occurrences of R, every
+    `-s` - is accepted by exec (the model of the kernel's limits): the re-check of the substituted
+    command in `execute` cuts the run before the first one that would not be. -/
+theorem C06_replace_main (opts : List Opt) (cmd : List (List UInt8)) (input : List UInt8)
+    (script : List Outcome) (R : List UInt8) (hR : (normalize opts).replace = some R)
+    (envp : List (List UInt8)) (argMax : Nat) (file : List UInt8)
+    (hroom : 2048 + (strCostL (envp.map List.length) + 8 * envp.length) ≤ argMax)
+    (hfile : file.length + 1 ≤ 2048)
+    (henv : ∀ e ∈ envp, e.length + 1 ≤ 131072)
+    (hcmd : cmd ≠ []) :
+    ∀ av ∈ (xargsMain opts cmd input script (sysBudget argMax (envp.map List.length))).argvs,
+      execAccepts argMax file av envp = true := by
+  obtain ⟨lim, hsys, hptr, hmax, _, h⟩ := main_replace_fits opts cmd input script (sysBudget argMax (envp.map List.length)) R hR
+  intro av hav
+  obtain ⟨b, rfl, hb⟩ := h av hav
+  unfold substFits at hb
+  obtain ⟨init, hinit⟩ := Option.isSome_iff_exists.mp hb
+  refine C06_replace_accepted lim _ init envp argMax file hsys hptr hmax hroom hfile henv ?_ hinit
+  cases cmd with
+  | nil => exact absurd rfl hcmd
+  | cons p ps => simp [argvOf]
 
 /-! Non-vacuity: a concrete configuration that meets the hypotheses of `C06_accepted`. -/
 example :
